@@ -70,6 +70,7 @@ type Step struct {
 	Pad   int      `json:"pad"`
 	Chid  int32    `json:"chid"`
 	Tz    *int     `json:"tz"` // seconds east of UTC to install as time.Local before the step
+	Plmn  string   `json:"plmn"` // create: the consumer's PLMN as "mcc/mnc" ("" = absent)
 }
 
 type Behaviour struct {
@@ -374,6 +375,10 @@ func (d *SeqDriver) runOne(b *Behaviour) {
 			if st.A == "create" {
 				notify := env.SinkURL + "/n/" + st.U + "/" + st.S
 				nfc := map[string]any{"nFName": st.C, "nodeFunctionality": "SMF"}
+				if i := strings.Index(st.Plmn, "/"); i > 0 {
+					nfc["nFPLMNID"] = map[string]any{"mcc": st.Plmn[:i], "mnc": st.Plmn[i+1:]}
+				}
+				args["plmn"] = st.Plmn
 				// how the consumer identifies its address: legal alternatives of NFIdentification
 				if st.Addr == "v4" || st.Addr == "all" {
 					nfc["nFIPv4Address"] = "10.1.2.3"
@@ -641,10 +646,30 @@ func (d *SeqDriver) project(b *Behaviour) map[string]any {
 	return st
 }
 
+// plmnDigits reads a PLMN identity (three octets of BCD digits d1..d6, low nibble first: MCC1 MCC2 MCC3, then a filler and
+// two MNC digits, or three MNC digits) back into "mcc/mnc"; written from the digit layout, not from the repository's encoder.
+func plmnDigits(b []byte) string {
+	if len(b) != 3 {
+		return fmt.Sprintf("?%d octets", len(b))
+	}
+	d := []byte{b[0] & 15, b[0] >> 4, b[1] & 15, b[1] >> 4, b[2] & 15, b[2] >> 4}
+	ch := func(x byte) string {
+		if x < 10 {
+			return string('0' + x)
+		}
+		return "x"
+	}
+	s := ch(d[0]) + ch(d[1]) + ch(d[2]) + "/"
+	if d[3] == 15 {
+		return s + ch(d[4]) + ch(d[5])
+	}
+	return s + ch(d[3]) + ch(d[4]) + ch(d[5])
+}
+
 func projRecord(r *cdrType.CHFRecord) map[string]any {
 	out := map[string]any{
 		"ref": "", "hasRef": false, "lrsn": -1, "chid": -1, "consumer": "", "cause": -1, "rsn": -1,
-		"subscriber": "", "subtype": -1, "conts": []any{}, "upfs": []any{}, "berLen": -1, "optime": []any{}, "pad": 0,
+		"subscriber": "", "subtype": -1, "conts": []any{}, "upfs": []any{}, "berLen": -1, "optime": []any{}, "pad": 0, "plmn": "",
 	}
 	if r == nil || r.ChargingFunctionRecord == nil {
 		return out
@@ -662,6 +687,9 @@ func projRecord(r *cdrType.CHFRecord) map[string]any {
 	}
 	if c.NFunctionConsumerInformation.NetworkFunctionName != nil {
 		out["consumer"] = string(c.NFunctionConsumerInformation.NetworkFunctionName.Value)
+	}
+	if p := c.NFunctionConsumerInformation.NetworkFunctionPLMNIdentifier; p != nil {
+		out["plmn"] = plmnDigits(p.Value)
 	}
 	out["cause"] = clamp31(c.CauseForRecClosing.Value)
 	if c.RecordSequenceNumber != nil {
